@@ -15,7 +15,22 @@
 (*   keyper/database/sql/queries/keyper.sql  GetBatchConfig,               *)
 (*                        GetDKGResultForKeyperConfigIndex, GetDecryptionKey*)
 (*                                                                         *)
-(* A CASE is a message m together with the receiver's database state recv. *)
+(* A CASE is a node flavour fl, a message m and the receiver's database     *)
+(* state recv.                                                             *)
+(*                                                                         *)
+(* fl   "core": the assembly of keyper.KeyperCore.Start (one validator per *)
+(*      topic); "gnosis" / "service": the assemblies of                    *)
+(*      keyperimpl/gnosis/keyper.go and keyperimpl/shutterservice/keyper.go*)
+(*      Start: the flavour's DecryptionKeyShares / DecryptionKeys handler  *)
+(*      is registered FIRST on the topic, the core handler second (through *)
+(*      the messaging middleware); the combined validator runs both,       *)
+(*      reject dominates.  For these flavours the concretiser attaches a   *)
+(*      GENUINE flavour extra to messages whose extra field names the      *)
+(*      flavour (the sender's real signature over the message's own        *)
+(*      fields / threshold many real signatures for keys, identities of    *)
+(*      the flavour's SSZ size), so that the flavour validator accepts     *)
+(*      whenever its structural checks pass and the verdict rests on the   *)
+(*      core validator.                                                    *)
 (*                                                                         *)
 (* m.mt        "shares" | "keys": the message type the topic is for        *)
 (* m.topicOk   the pubsub message names the topic the validator is         *)
@@ -98,6 +113,11 @@ Extras     == {"none", "gnosis", "service", "optimism"}
 Layouts    == {"rich", "solo"}
 StoredCls  == {"none", "wrong1", "wrongAll", "validAll"}
 SharesCls  == {"none", "k2"}
+
+C04Flavours == {"core", "gnosis", "service"}
+OwnExtra(fl) == IF fl = "core" THEN "none" ELSE fl
+(* validators the flavour's Start function registers on each of the two topics *)
+ValidatorCount(fl) == IF fl = "core" THEN 1 ELSE 2
 
 Kinds(mt) == IF mt = "shares" THEN ShareKinds ELSE KeyKinds
 
@@ -185,17 +205,37 @@ KeyLoop(m, recv, i) ==
 ValidateKeys(m, recv) ==
     LET p == Prologue(m) IN IF p # "" THEN Out("reject", p) ELSE KeyLoop(m, recv, 1)
 
+(* the flavour's own validator in front of the core one, for a message whose flavour extra is
+   genuine (see above); "" = accepts.
+   gnosis.DecryptionKeySharesHandler.ValidateMessage / shutterservice...: extra type, (slot and
+   tx pointer are small), keyper set of int64(eon) in keyper_set, sender index, signature.
+   gnosis.DecryptionKeysHandler.ValidateMessage: ValidateDecryptionKeysBasic (extra type, at least
+   one key), keyper set, signer indices and signatures (genuine).  shutterservice: extra type,
+   keyper set, signatures. *)
+KeyperSetKnown(set) == set \notin {"Unknown", "Overflow", "Wrap32"}      \* keyper_set row for int64(eon)
+FlavourValidator(fl, m) ==
+    IF m.extra # OwnExtra(fl) THEN "extra"
+    ELSE IF m.mt = "keys" /\ fl = "gnosis" /\ Len(m.entries) = 0 THEN "empty"
+    ELSE IF ~KeyperSetKnown(m.set) THEN "keyperset"
+    ELSE IF m.mt = "shares" /\ m.snd >= N THEN "senderidx"
+    ELSE ""
+
 (* the closure built by addValidatorImpl for the handler of topic m.mt; the Validate() method of
    the unmarshalled message (of either type) fails iff one entry does not unmarshal *)
-TopicValidator(m, recv) ==
-    IF ~m.topicOk THEN Out("reject", "topic")
-    ELSE IF ~m.versionOk THEN Out("reject", "version")
-    ELSE IF \E i \in DOMAIN m.entries : ~Decodes(m.entries[i].k) THEN Out("reject", "decode")
-    ELSE IF ~m.typeOk THEN Out("reject", "type")
-    ELSE IF m.mt = "shares" THEN ValidateShares(m) ELSE ValidateKeys(m, recv)
+Envelope(m) ==
+    IF ~m.topicOk THEN "topic"
+    ELSE IF ~m.versionOk THEN "version"
+    ELSE IF \E i \in DOMAIN m.entries : ~Decodes(m.entries[i].k) THEN "decode"
+    ELSE IF ~m.typeOk THEN "type"
+    ELSE ""
+CoreValidator(m, recv) == IF m.mt = "shares" THEN ValidateShares(m) ELSE ValidateKeys(m, recv)
 
-(* GetCombinedValidator: the core keyper registers one validator per topic *)
-CombinedValidator(m, recv) == TopicValidator(m, recv)
+(* GetCombinedValidator: the validators of the topic in registration order, the first reject
+   decides (every one of them starts with the same envelope checks) *)
+CombinedValidator(fl, m, recv) ==
+    IF Envelope(m) # "" THEN Out("reject", Envelope(m))
+    ELSE IF fl # "core" /\ FlavourValidator(fl, m) # "" THEN Out("reject", FlavourValidator(fl, m))
+    ELSE CoreValidator(m, recv)
 
 ----------------------------------------------------------------------------
 (* Handle, called only after accept.  Result: outgoing messages and the number of rows added *)
@@ -217,12 +257,21 @@ HandleKeys(m, recv) ==
     [out |-> <<>>,
      d   |-> [shares |-> 0, keys |-> Cardinality({r \in Ranks(m) : StoredKind(recv, r) = "none"}), other |-> FALSE]]
 
-(* what a node does with one delivered message: the full observable outcome *)
-Pipeline(m, recv) ==
-    LET v == CombinedValidator(m, recv) IN
+(* what a node does with one delivered message: the full observable outcome.  nv = number of
+   validators registered on the topic.  For the flavour assemblies the effects of Handle (flavour
+   tables, middleware) are not modelled here: see Conforms. *)
+Pipeline(fl, m, recv) ==
+    LET v == CombinedValidator(fl, m, recv) IN
     IF v.v # "accept"
-    THEN [v |-> v.v, why |-> v.why, h |-> FALSE, herr |-> "", out |-> <<>>, d |-> NoDelta]
+    THEN [v |-> v.v, why |-> v.why, h |-> FALSE, herr |-> "", out |-> <<>>, d |-> NoDelta, nv |-> ValidatorCount(fl)]
     ELSE LET hh == IF m.mt = "shares" THEN HandleShares(m, recv) ELSE HandleKeys(m, recv) IN
-         [v |-> "accept", why |-> "", h |-> TRUE, herr |-> "", out |-> hh.out, d |-> hh.d]
+         [v |-> "accept", why |-> "", h |-> TRUE, herr |-> "", out |-> hh.out, d |-> hh.d, nv |-> ValidatorCount(fl)]
+
+(* pass B: the observed outcome is the one computed here (core: the whole record; flavour
+   assemblies: verdict, reason, handled, validator count) *)
+Conforms(fl, m, recv, o) ==
+    LET p == Pipeline(fl, m, recv) IN
+    IF fl = "core" THEN o = p
+    ELSE o.v = p.v /\ o.why = p.why /\ o.h = p.h /\ o.nv = p.nv
 
 =============================================================================
